@@ -25,10 +25,16 @@ CHECKS = {
         "both heads and the transaction record are compared with the implementation over histories whose request sizes cluster at the fits/does-not-fit boundary for sizes 1..130 and 2^k±1. "
         "The refinement theorems to the byte FIFO are being added; until they build this is a validated model, not a proof.",
    note="memcpy modelled as list copy; sizes 0 and > 2^31 are outside the property.", ref="§5 C05"),
- "C16": dict(cat="translation_validation", tech="Lean 4 executable model of the scanner validated against the implementation on an exhaustive small alphabet under 7 environments; equivalence theorems to the token-level spec in progress",
-   text="The C scanner (indices s/start/t, first-match environment lookup) is an executable Lean model compared with the implementation on every string over {$ ~ A _ a / : {} up to length 5 (7 thorough) "
-        "in seven environments, each call under a CPU watchdog (non-termination is a verdict). Theorems expand_terminates / expand_eq_spec are being added; until they build this is a validated model.",
-   note="HOME-unset and glued-tilde behaviour follow the code (the property leaves them open).", ref="§5 C16"),
+ "C16": dict(cat="proof", tech="Lean 4 theorems (loop invariant by induction on fuel: the C scanner equals the token-level specification for every string and environment) and model/implementation correspondence on an exhaustive small alphabet",
+   text="expand_terminates and expand_eq_spec are proved for every NUL-free string and every environment (fuel length+1 always suffices; the scanner's output is the token-level spec: "
+        "$NAME with the longest [A-Z0-9_] run, values appended verbatim, unset references and all other text copied). Token lemmas state the tilde rules. Tie: the scanner model is compared with "
+        "the implementation on every string over {$ ~ A _ a / : {} up to length 5 (7 thorough) in seven environments, each call under a CPU watchdog.",
+   note="HOME-unset and glued-tilde behaviour follow the code (the property leaves them open); realloc/memcpy modelled as list append.", ref="§5 C16"),
+ "C17": dict(cat="proof", tech="Lean 4 theorems (deadline arithmetic for all uint32 pairs by induction+omega; EINTR retry loop over an arbitrary oracle; regenerated errno table by decide; abstract counter invariant over all interleavings) and correspondence under scripted kernel results (linker --wrap)",
+   text="deadline_exact_normalised for every now and all 2^64 (seconds, nanoseconds) pairs; wait_resumes_after_eintr / wait_never_reports_eintr for every oracle; try_wait/timed_wait status iff theorems over the errno table "
+        "regenerated from errno_status.c; sem_conservation and sem_no_lost_wakeup for the abstract counter on every interleaving. Tie: sem_posix.c is run with sem_wait/sem_trywait/sem_timedwait/clock_gettime wrapped; status, "
+        "call count and the abstime received are compared with the model.",
+   note="The kernel semaphore, real time and signal delivery are modelled, not verified: the schedule clauses are theorems about an abstract counter composed with the documented behaviour of sem_*.", ref="§5 C17"),
 }
 
 NOT_YET = "check not built yet in this revision (framework under construction; see DESIGN.md §8)"
